@@ -467,7 +467,7 @@ Section World.
       cbn [new_slot fst snd]. split; [|discriminate].
       eapply sh_new with (cs := []); [reflexivity|]. cbn [obj_inv]. now apply rodeo_new_inv.
     - (* NewThreaded *)
-      cbn [op_wf] in Hwf. destruct (isize_max <? cap); [same|].
+      cbn [op_wf] in Hwf. destruct (lf_cap_max <? cap); [same|].
       cbn [new_slot fst snd]. split; [|discriminate].
       eapply sh_new with (cs := []); [reflexivity|]. cbn [obj_inv]. now apply trodeo_new_inv.
   Qed.
@@ -784,7 +784,8 @@ Section World.
         if th then snd (t_extend (trodeo_new default_bytes usize_max) l) = false
         else snd (r_extend (rodeo_new default_bytes usize_max) l) = false
     | De k (DList l) => (k = KRodeo \/ k = KReader) /\ keycap < N.of_nat (length l)
-    | NewRodeo cap _ | NewThreaded cap _ => isize_max < cap
+    | NewRodeo cap _ => isize_max < cap
+    | NewThreaded cap _ => lf_cap_max < cap
     | _ => False
     end.
 
@@ -870,7 +871,7 @@ Section World.
     - (* NewRodeo *)
       cbn [panic_cause]. destruct (isize_max <? cap) eqn:Ec; [intros _; now apply N.ltb_lt|nopanic].
     - (* NewThreaded *)
-      cbn [panic_cause]. destruct (isize_max <? cap) eqn:Ec; [intros _; now apply N.ltb_lt|nopanic].
+      cbn [panic_cause]. destruct (lf_cap_max <? cap) eqn:Ec; [intros _; now apply N.ltb_lt|nopanic].
   Qed.
 
 
